@@ -321,3 +321,13 @@ package dispatcher
 //@ lemma[C17] exportedAmountKey: forall q T_cosmossdk_io_collections_Quad_int32_string_string_string_ :: amtKeyOK(q) ==> quad4(q.k1, q.k2, idstr(idP(q.k3), idC(q.k3)), q.k4) == q
 //@ lemma[C17] enumRoundTripQ: forall S (Array T_cosmossdk_io_collections_Quad_int32_string_string_string_ Bool), q T_cosmossdk_io_collections_Quad_int32_string_string_string_ :: enumFactsQ(S) ==> (S[q] <==> (exists j int :: 0 <= j && j < enumLenQ(S) && enumAtQ(S, j) == q))
 //@ lemma[C17] enumRoundTripQC: forall S (Array T_cosmossdk_io_collections_Quad_int32_string_int32_string_ Bool), q T_cosmossdk_io_collections_Quad_int32_string_int32_string_ :: enumFactsQC(S) ==> (S[q] <==> (exists j int :: 0 <= j && j < enumLenQC(S) && enumAtQC(S, j) == q))
+
+// ---------------------------------------------------------------------------------------------
+// Object invariant: the injected dependencies are present. Proved on the constructor (New ends in
+// Validate), protected by the scan typeinv#immutable (no allocation or field store outside New).
+// Panic freedom (C14, C11, C17) may rely on it for every non-nil *Dispatcher.
+// ---------------------------------------------------------------------------------------------
+//@ macro dispatcherWF(d) = d.logger != nil && d.ForwardingHandler != nil && d.ActionHandler != nil
+//@ typeinv Dispatcher dispatcherWF New
+//@ func New(cdc, sb, logger, forwardingHandler, actionHandler) (result, err)
+//@   ensures[C11,C14,C17] err == nil ==> result != nil && dispatcherWF(result)
